@@ -15,7 +15,9 @@ in a small state/exception monad `M`.  Results distinguish
            below 0, pop of an empty options/group stack, nil unit, slice bounds,
 * `fuel`   a loop ran out of its explicit fuel.
 
-`Lemmas/Parser.lean` proves that `fault` and `fuel` are unreachable (`Props.C10.parse_total`).
+`Props.C10.parse_total` (`Props/C10Parser.lean`, lemmas in `Lemmas/Parser*.lean`) proves that `fault` and
+`fuel` are unreachable.  The large Go functions are split into one definition per branch (`bb…`, `gn…`,
+`cond…`, `groupOpen…`, `cs…`, `count…`, `quant…`, `step…`) so that each can be specified on its own.
 
 Reused models: `Model/Class.lean` (every class operation: `addRange`, `addRanges`,
 `addNegativeRanges`, `addCategories`, `canonicalize`, `addLowercase`, `addCaseEquivalences`, `Copy`),
@@ -783,132 +785,172 @@ structure CS where
 
 def CS.add (cat : Nat → Nat → Bool) (c : CS) (it : Class.Item) : CS := { c with cc := c.cc.addItem cat it }
 
+/-- `closed`: the class that `scanCharSet` returns -/
+def csFinish (ci so : Bool) (c : CS) : M Class.Class :=
+  let cat := E.orc.cat
+  let hasSub := c.sub.isSome
+  let fl := if so then c.cc
+    else if ci then Class.Flat.addLowercase cat E.orc.toLower lcTable hasSub c.cc
+    else Class.Flat.finish cat hasSub c.cc
+  pure (match c.sub with | none => .leaf fl | some s => .minus fl s)
+
+/-- a subtraction `-[…]`: scan the nested class (`sub`), it must be the last item; `next` = the next
+    turn of the loop -/
+def csSubtract (sub : M Class.Class) (next : CS → M Class.Class) (c : CS) : M Class.Class := do
+  let sub ← sub
+  let c := { c with sub := some sub }
+  let cr ← charsRight E
+  if (← andM (cr > 0) (rcNe E 0 93)) then throw .subtractionMustBeLast else next c
+
+/-- the end of a range `a-ch` -/
+def csRangeEnd (sub : Bool → M Class.Class) (next : CS → M Class.Class) (so : Bool) (c : CS) (ch : Nat)
+    (translated : Bool) : M Class.Class :=
+  let cat := E.orc.cat
+  let c := { c with inRange := false }
+  if so then next c
+  else if ch = 91 ∧ !translated ∧ !c.firstChar then
+    csSubtract E (sub false) next (c.add cat (.range c.chPrev c.chPrev))
+  else if c.chPrev > ch then throw .reversedCharRange
+  else next (c.add cat (.range c.chPrev ch))
+
+/-- `-[` outside a range: a subtraction (scan-only: the nested class is skipped, its errors ignored) -/
+def csDashBracket (sub : Bool → M Class.Class) (next : CS → M Class.Class) (so : Bool) (c : CS) : M Class.Class :=
+  if !so then do
+    moveRight 1
+    csSubtract E (sub false) next c
+  else do
+    moveRight 1
+    ignoreErr (sub true)
+    next c
+
+/-- the range / subtraction / single character tail of the loop body -/
+def csTail (sub : Bool → M Class.Class) (next : CS → M Class.Class) (so : Bool) (c : CS) (ch : Nat)
+    (translated : Bool) : M Class.Class := do
+  let cat := E.orc.cat
+  let cr ← charsRight E
+  if c.inRange then csRangeEnd E sub next so c ch translated
+  else if (← andM (cr ≥ 2) (andMM (rcIs E 0 45) (rcNe E 1 93))) then do
+    moveRight 1
+    next { c with chPrev := ch, inRange := true }
+  else if (← andM (cr ≥ 1 ∧ ch = 45 ∧ !translated) (rcIs E 0 91)) ∧ !c.firstChar then
+    csDashBracket E sub next so c
+  else if so then next c
+  else next (c.add cat (.range ch ch))
+
+/-- a shorthand class (`\d \s \w` …) inside the set -/
+def csShorthand (next : CS → M Class.Class) (so : Bool) (o : Opts) (c : CS) (it : Class.Item) : M Class.Class :=
+  let cat := E.orc.cat
+  if so then next c
+  else if c.inRange then
+    if !o.e then throw .badClassInCharRange
+    else
+      let c1 : CS := (c.add cat (.range c.chPrev c.chPrev)).add cat (.range 45 45)
+      let c2 : CS := { c1 with inRange := false }
+      next (c2.add cat it)
+  else next (c.add cat it)
+
+/-- `\p` under ECMAScript without Unicode: the letter `p` -/
+def csLetterP (next : CS → M Class.Class) (so : Bool) (c : CS) (ch : Nat) : M Class.Class := do
+  let cat := E.orc.cat
+  if so then next c
+  else if c.inRange then
+    if c.chPrev > ch then throw .reversedCharRange
+    else next { (c.add cat (.range c.chPrev ch)) with inRange := false }
+  else do
+    let cr ← charsRight E
+    if (← andM (cr ≥ 2) (andMM (rcIs E 0 45) (rcNe E 1 93))) then do
+      let c := c.add cat (.range 45 45)
+      moveRight 1
+      let chLast ← moveRightGetChar E
+      if ch > chLast then throw .reversedCharRange
+      else next (c.add cat (.range ch chLast))
+    else next (c.add cat (.range ch ch))
+
+/-- `\p` / `\P` inside the set -/
+def csProperty (next : CS → M Class.Class) (ci so : Bool) (o : Opts) (c : CS) (ch : Nat) : M Class.Class :=
+  if o.e ∧ !o.u ∧ ch = 80 ∧ c.inRange then throw .shorthandClassInCharRange
+  else if o.e ∧ !o.u ∧ ch = 112 then csLetterP E next so c ch
+  else do
+    let id ← parseProperty E
+    if so then next c
+    else if c.inRange then throw .shorthandClassInCharRange
+    else next { c with cc := addCategory c.cc id (ch ≠ 112) ci }
+
+/-- a backslash inside the set (consumed; one more rune is there) -/
+def csEscape (sub : Bool → M Class.Class) (next : CS → M Class.Class) (ci so : Bool) (o : Opts) (c : CS) :
+    M Class.Class := do
+  let cat := E.orc.cat
+  let ch ← moveRightGetChar E
+  if ch = 68 ∨ ch = 100 then csShorthand E next so o c (digitItem (o.e || o.re2) (ch = 68))
+  else if ch = 83 ∨ ch = 115 then csShorthand E next so o c (spaceItem o.e o.re2 (ch = 83))
+  else if ch = 87 ∨ ch = 119 then csShorthand E next so o c (wordItem (o.e || o.re2) (ch = 87))
+  else if ch = 112 ∨ ch = 80 then csProperty E next ci so o c ch
+  else if ch = 45 then next (if so then c else c.add cat (.range 45 45))
+  else do
+    moveLeft
+    let v ← scanCharEscape E
+    csTail E sub next so c v true
+
+/-- `[:` inside the set (the `[` consumed): a POSIX name `[:alpha:]` under RE2, else the letters -/
+def csPosix (sub : Bool → M Class.Class) (next : CS → M Class.Class) (so : Bool) (o : Opts) (c : CS) (ch : Nat) :
+    M Class.Class := do
+  let cat := E.orc.cat
+  let savePos ← textpos
+  moveRight 1
+  let cr ← charsRight E
+  let negate ← andM (cr > 1) (rcIs E 0 94)
+  if negate then moveRight 1
+  let nm ← scanWord E
+  let c ← (if !so ∧ o.re2 then
+      match namedASCII c.cc cat nm negate with
+      | some fl => pure { c with cc := fl }
+      | none => throw .invalidCharRange
+    else pure c : M CS)
+  let cr ← charsRight E
+  if cr < 2 then do textto savePos; csTail E sub next so c ch false
+  else do
+    let a ← moveRightGetChar E
+    if a ≠ 58 then do textto savePos; csTail E sub next so c ch false
+    else do
+      let b ← moveRightGetChar E
+      if b ≠ 93 then do textto savePos; csTail E sub next so c ch false
+      else if o.re2 then next c
+      else csTail E sub next so c ch false
+
+/-- one turn of the loop of `scanCharSet` (`sub` = the nested `scanCharSet`, `next` = the next turn) -/
+def csBody (sub : Bool → M Class.Class) (next : CS → M Class.Class) (ci so : Bool) (c : CS) : M Class.Class := do
+  let cat := E.orc.cat
+  let o ← opts
+  let cr ← charsRight E
+  if cr = 0 then throw .unterminatedBracket else
+  let ch ← moveRightGetChar E
+  let cr ← charsRight E
+  if ch = 93 ∧ !c.firstChar then csFinish E ci so c
+  else if ch = 93 ∧ o.e then csFinish E ci so (if so then c else c.add cat (.ranges []))
+  else if ch = 93 then csTail E sub next so c ch false
+  else if ch = 92 ∧ cr > 0 then csEscape E sub next ci so o c
+  else if ch = 91 then do
+    if (← andM (cr > 0) (rcIs E 0 58)) ∧ !c.inRange then csPosix E sub next so o c ch
+    else csTail E sub next so c ch false
+  else csTail E sub next so c ch false
+
+/-- the `^` after `[` -/
+def csNegate : M Bool := do
+  if (← nextIs E 94) then do moveRight 1; pure true else pure false
+
 mutual
 /-- `scanCharSet(caseInsensitive, scanOnly)` (the `[` has been consumed) -/
 def scanCharSet : Nat → Bool → Bool → M Class.Class
   | 0, _, _ => fun _ => .fuel
   | f + 1, ci, so => do
-    let neg ← (do
-      if (← nextIs E 94) then do moveRight 1; pure true else pure false : M Bool)
+    let neg ← csNegate E
     csLoop f ci so { cc := { neg := neg, building := true } }
 
 /-- the `for ; p.charsRight() > 0; firstChar = false` loop and what follows it -/
 def csLoop : Nat → Bool → Bool → CS → M Class.Class
   | 0, _, _, _ => fun _ => .fuel
-  | f + 1, ci, so, c => do
-    let cat := E.orc.cat
-    let o ← opts
-    let next (c : CS) : M Class.Class := csLoop f ci so { c with firstChar := false }
-    let finish (c : CS) : M Class.Class := do
-      -- `closed`
-      let hasSub := c.sub.isSome
-      let fl := if so then c.cc
-        else if ci then Class.Flat.addLowercase cat E.orc.toLower lcTable hasSub c.cc
-        else Class.Flat.finish cat hasSub c.cc
-      pure (match c.sub with | none => .leaf fl | some s => .minus fl s)
-    -- the range / subtraction / single character tail of the loop body
-    let tail (c : CS) (ch : Nat) (translated : Bool) : M Class.Class := do
-      let cr ← charsRight E
-      if c.inRange then
-        let c := { c with inRange := false }
-        if so then next c
-        else if ch = 91 ∧ !translated ∧ !c.firstChar then do
-          let c := c.add cat (.range c.chPrev c.chPrev)
-          let sub ← scanCharSet f ci false
-          let c := { c with sub := some sub }
-          let cr ← charsRight E
-          if (← andM (cr > 0) (rcNe E 0 93)) then throw .subtractionMustBeLast else next c
-        else if c.chPrev > ch then throw .reversedCharRange
-        else next (c.add cat (.range c.chPrev ch))
-      else if (← andM (cr ≥ 2) (andMM (rcIs E 0 45) (rcNe E 1 93))) then do
-        moveRight 1
-        next { c with chPrev := ch, inRange := true }
-      else if (← andM (cr ≥ 1 ∧ ch = 45 ∧ !translated) (rcIs E 0 91)) ∧ !c.firstChar then
-        if !so then do
-          moveRight 1
-          let sub ← scanCharSet f ci false
-          let c := { c with sub := some sub }
-          let cr ← charsRight E
-          if (← andM (cr > 0) (rcNe E 0 93)) then throw .subtractionMustBeLast else next c
-        else do
-          moveRight 1
-          ignoreErr (scanCharSet f ci true)
-          next c
-      else if so then next c
-      else next (c.add cat (.range ch ch))
-    -- a shorthand class inside the set
-    let shorthand (c : CS) (_ch : Nat) (it : Class.Item) : M Class.Class :=
-      if so then next c
-      else if c.inRange then
-        if !o.e then throw .badClassInCharRange
-        else
-          let c1 : CS := (c.add cat (.range c.chPrev c.chPrev)).add cat (.range 45 45)
-          let c2 : CS := { c1 with inRange := false }
-          next (c2.add cat it)
-      else next (c.add cat it)
-    let cr ← charsRight E
-    if cr = 0 then throw .unterminatedBracket else
-    let ch ← moveRightGetChar E
-    let cr ← charsRight E
-    if ch = 93 ∧ !c.firstChar then finish c
-    else if ch = 93 ∧ o.e then finish (if so then c else c.add cat (.ranges []))
-    else if ch = 93 then tail c ch false
-    else if ch = 92 ∧ cr > 0 then do
-      let ch ← moveRightGetChar E
-      if ch = 68 ∨ ch = 100 then shorthand c ch (digitItem (o.e || o.re2) (ch = 68))
-      else if ch = 83 ∨ ch = 115 then shorthand c ch (spaceItem o.e o.re2 (ch = 83))
-      else if ch = 87 ∨ ch = 119 then shorthand c ch (wordItem (o.e || o.re2) (ch = 87))
-      else if ch = 112 ∨ ch = 80 then
-        if o.e ∧ !o.u ∧ ch = 80 ∧ c.inRange then throw .shorthandClassInCharRange
-        else if o.e ∧ !o.u ∧ ch = 112 then
-          if so then next c
-          else if c.inRange then
-            if c.chPrev > ch then throw .reversedCharRange
-            else next { (c.add cat (.range c.chPrev ch)) with inRange := false }
-          else do
-            let cr ← charsRight E
-            if (← andM (cr ≥ 2) (andMM (rcIs E 0 45) (rcNe E 1 93))) then do
-              let c := c.add cat (.range 45 45)
-              moveRight 1
-              let chLast ← moveRightGetChar E
-              if ch > chLast then throw .reversedCharRange
-              else next (c.add cat (.range ch chLast))
-            else next (c.add cat (.range ch ch))
-        else do
-          let id ← parseProperty E
-          if so then next c
-          else if c.inRange then throw .shorthandClassInCharRange
-          else next { c with cc := addCategory c.cc id (ch ≠ 112) ci }
-      else if ch = 45 then next (if so then c else c.add cat (.range 45 45))
-      else do
-        moveLeft
-        let v ← scanCharEscape E
-        tail c v true
-    else if ch = 91 then do
-      if (← andM (cr > 0) (rcIs E 0 58)) ∧ !c.inRange then do
-        let savePos ← textpos
-        moveRight 1
-        let cr ← charsRight E
-        let negate ← andM (cr > 1) (rcIs E 0 94)
-        if negate then moveRight 1
-        let nm ← scanWord E
-        let c ← (if !so ∧ o.re2 then
-            match namedASCII c.cc cat nm negate with
-            | some fl => pure { c with cc := fl }
-            | none => throw .invalidCharRange
-          else pure c : M CS)
-        let cr ← charsRight E
-        if cr < 2 then do textto savePos; tail c ch false
-        else do
-          let a ← moveRightGetChar E
-          if a ≠ 58 then do textto savePos; tail c ch false
-          else do
-            let b ← moveRightGetChar E
-            if b ≠ 93 then do textto savePos; tail c ch false
-            else if o.re2 then next c
-            else tail c ch false
-      else tail c ch false
-    else tail c ch false
+  | f + 1, ci, so, c =>
+    csBody E (fun so' => scanCharSet f ci so') (fun c => csLoop f ci so { c with firstChar := false }) ci so c
 end
 
 /-! ## Backslash escapes -/
@@ -925,61 +967,89 @@ def typeFromCode (o : Opts) (ch : Nat) : NT :=
 /-- the node handed back in `scanOnly` mode (`nil` in Go; never looked at) -/
 def dummy : RNode := mkNode .nothing {}
 
+/-- "Not backreference: must be char code": back to the character after the backslash -/
+def bbCharCode (scanOnly : Bool) (o : Opts) (backpos : Nat) : M RNode := do
+  textto backpos
+  let v ← scanCharEscape E
+  if scanOnly then pure dummy else
+  let v := if o.i then E.orc.toLower v else v
+  pure (nodeCh E .one o v)
+
+/-- after `\k`: `<` or `'` — (opened, closing delimiter) -/
+def bbKOpen (o : Opts) : M (Bool × Nat) := do
+  let cr ← charsRight E
+  if cr ≥ 2 then do
+    moveRight 1
+    let c ← moveRightGetChar E
+    if c = 60 ∨ (!o.e ∧ c = 39) then pure (true, if c = 39 then 39 else 62) else pure (false, 0)
+  else pure (false, 0)
+
+/-- the head of `scanBasicBackslash` (one rune is there): `\k<` `\k'` `\<` `\'` —
+    (angled, k, closing delimiter, current rune) -/
+def bbHead (o : Opts) : M (Bool × Bool × Nat × Nat) := do
+  let cr ← charsRight E
+  let ch0 ← rightChar E 0
+  let hasNames ← hasCapnames
+  if ch0 = 107 ∧ (!o.e ∨ o.u ∨ hasNames) then do
+    let r ← bbKOpen E o
+    let cr ← charsRight E
+    if !r.1 ∨ cr = 0 then throw .malformedNameRef else
+    let c ← rightChar E 0
+    pure (true, true, r.2, c)
+  else if !o.e ∧ (ch0 = 60 ∨ ch0 = 39) ∧ cr > 1 then do
+    moveRight 1
+    let c ← rightChar E 0
+    pure (true, false, (if ch0 = 39 then 39 else 62), c)
+  else pure (false, false, 0, ch0)
+
+/-- `\<12>` `\k<12>` -/
+def bbAngledNumber (scanOnly : Bool) (o : Opts) (backpos close : Nat) : M RNode := do
+  let capnum ← scanDecimal E
+  let cr ← charsRight E
+  if (← andM (cr > 0) (getIs E close)) then
+    if (← isCaptureSlot capnum) then pure (mkNodeM .ref o capnum) else throw .undefinedBackRef
+  else bbCharCode E scanOnly o backpos
+
+/-- `\12` -/
+def bbNumber (scanOnly : Bool) (o : Opts) (backpos : Nat) : M RNode := do
+  let capnum ← scanDecimal E
+  if scanOnly then pure dummy
+  else if (← isCaptureSlot capnum) then pure (mkNodeM .ref o capnum)
+  else if capnum ≤ 9 ∧ !o.e then throw .undefinedBackRef
+  else bbCharCode E scanOnly o backpos
+
+/-- `\<name>` `\k<name>` -/
+def bbName (scanOnly : Bool) (o : Opts) (backpos close : Nat) (k : Bool) : M RNode := do
+  let capname ← scanCapname E
+  let cr ← charsRight E
+  if (← andM (!capname.isEmpty ∧ cr > 0) (getIs E close)) then
+    if scanOnly then pure dummy
+    else match (← captureSlotFromName capname) with
+      | some slot => pure (mkNodeM .ref o slot)
+      | none => throw .undefinedNameRef
+  else if k then throw .malformedNameRef
+  else bbCharCode E scanOnly o backpos
+
 /-- `scanBasicBackslash(scanOnly)` -/
 def scanBasicBackslash (scanOnly : Bool) : M RNode := do
   let cr ← charsRight E
   if cr = 0 then throw .illegalEndEscape else
   let o ← opts
   let backpos ← textpos
-  let ch0 ← rightChar E 0
-  let hasNames ← hasCapnames
   -- (angled, k, close, ch)
-  let hd ← (if ch0 = 107 ∧ (!o.e ∨ o.u ∨ hasNames) then do
-      let r ← (if cr ≥ 2 then do
-          moveRight 1
-          let c ← moveRightGetChar E
-          if c = 60 ∨ (!o.e ∧ c = 39) then pure (true, if c = 39 then 39 else 62) else pure (false, 0)
-        else pure (false, 0) : M (Bool × Nat))
-      let cr ← charsRight E
-      if !r.1 ∨ cr = 0 then throw .malformedNameRef else
-      let c ← rightChar E 0
-      pure (true, true, r.2, c)
-    else if !o.e ∧ (ch0 = 60 ∨ ch0 = 39) ∧ cr > 1 then do
-      moveRight 1
-      let c ← rightChar E 0
-      pure (true, false, (if ch0 = 39 then 39 else 62), c)
-    else pure (false, false, 0, ch0) : M (Bool × Bool × Nat × Nat))
-  let (angled, k, close, ch) := hd
-  let charCode : M RNode := do
-    -- "Not backreference: must be char code"
-    textto backpos
-    let v ← scanCharEscape E
-    if scanOnly then pure dummy else
-    let v := if o.i then E.orc.toLower v else v
-    pure (nodeCh E .one o v)
-  if angled ∧ isDigitCh ch then do
-    let capnum ← scanDecimal E
-    let cr ← charsRight E
-    if (← andM (cr > 0) (getIs E close)) then
-      if (← isCaptureSlot capnum) then pure (mkNodeM .ref o capnum) else throw .undefinedBackRef
-    else charCode
-  else if !angled ∧ 49 ≤ ch ∧ ch ≤ 57 then do
-    let capnum ← scanDecimal E
-    if scanOnly then pure dummy
-    else if (← isCaptureSlot capnum) then pure (mkNodeM .ref o capnum)
-    else if capnum ≤ 9 ∧ !o.e then throw .undefinedBackRef
-    else charCode
-  else if angled then do
-    let capname ← scanCapname E
-    let cr ← charsRight E
-    if (← andM (!capname.isEmpty ∧ cr > 0) (getIs E close)) then
-      if scanOnly then pure dummy
-      else match (← captureSlotFromName capname) with
-        | some slot => pure (mkNodeM .ref o slot)
-        | none => throw .undefinedNameRef
-    else if k then throw .malformedNameRef
-    else charCode
-  else charCode
+  let hd ← bbHead E o
+  if hd.1 ∧ isDigitCh hd.2.2.2 then bbAngledNumber E scanOnly o backpos hd.2.2.1
+  else if !hd.1 ∧ 49 ≤ hd.2.2.2 ∧ hd.2.2.2 ≤ 57 then bbNumber E scanOnly o backpos
+  else if hd.1 then bbName E scanOnly o backpos hd.2.2.1 hd.2.1
+  else bbCharCode E scanOnly o backpos
+
+/-- `\p{…}` / `\P{…}` outside a class -/
+def bsProperty (o : Opts) (ch : Nat) : M RNode := do
+  moveRight 1
+  let id ← parseProperty E
+  let f := addCategory {} id (ch ≠ 112) o.i
+  let f := if o.i then Class.Flat.addLowercase E.orc.cat E.orc.toLower lcTable false f else f
+  pure (nodeSet E o (.leaf f))
 
 /-- `scanBackslash(scanOnly)` -/
 def scanBackslash (scanOnly : Bool) : M RNode := do
@@ -1004,12 +1074,7 @@ def scanBackslash (scanOnly : Bool) : M RNode := do
     moveRight 1; pure (nodeSet E o (.leaf (if er then oldSet ecmaDigitT false else catSet false false catNd)))
   else if ch = 68 then do
     moveRight 1; pure (nodeSet E o (.leaf (if er then oldSet ecmaDigitT true else catSet false true catNd)))
-  else if (ch = 112 ∨ ch = 80) ∧ !(o.e && !o.u) then do
-    moveRight 1
-    let id ← parseProperty E
-    let f := addCategory {} id (ch ≠ 112) o.i
-    let f := if o.i then Class.Flat.addLowercase E.orc.cat E.orc.toLower lcTable false f else f
-    pure (nodeSet E o (.leaf f))
+  else if (ch = 112 ∨ ch = 80) ∧ !(o.e && !o.u) then bsProperty E o ch
   else scanBasicBackslash E scanOnly
 
 /-! ## Groups -/
@@ -1037,51 +1102,61 @@ def breakRecognize {α : Type} (start : Nat) : M α := fun s =>
 
 def optInt (x : Option Nat) : Int := match x with | some v => v | none => -1
 
-/-- the name / number part of `(?<…>`, `(?'…'` (after `<` or `'`, first character not `=`/`!`) -/
-def scanGroupName (start close : Nat) : M (Option RNode) := do
-  let o ← opts
+/-- the slot of an explicitly numbered group `(?<12>` as the main parse sees it -/
+def gnSlotOfNumber (capnum : Nat) : M (Option Nat) := do
+  if E.ord then captureSlotFromName (itoaRunes capnum)
+  else do if (← isCaptureSlot capnum) then pure (some capnum) else pure none
+
+/-- `(?<…`: the part before `-` (one rune is there) — (slot if defined, "starts with `-`") -/
+def gnFirst (o : Opts) (close : Nat) : M (Option Nat × Bool) := do
   let ch ← rightChar E 0
-  -- part before `-`
-  let r1 ← (if isDigitCh ch ∧ !o.e then do
-      let capnum ← scanDecimal E
-      if capnum = 0 then throw .capNumNotZero else
-      let cn ← (if E.ord then captureSlotFromName (itoaRunes capnum)
-                else do if (← isCaptureSlot capnum) then pure (some capnum) else pure none : M (Option Nat))
+  if isDigitCh ch ∧ !o.e then do
+    let capnum ← scanDecimal E
+    if capnum = 0 then throw .capNumNotZero else
+    let cn ← gnSlotOfNumber E capnum
+    let cr ← charsRight E
+    if (← andM (cr > 0) (andMM (rcNe E 0 close) (rcNe E 0 45))) then throw .invalidGroupName
+    else pure (cn, false)
+  else if isGroupNameStartChar E o ch then do
+    let capname ← scanCapname E
+    let cn ← captureSlotFromName capname
+    let cr ← charsRight E
+    if (← andM (cr > 0) (andMM (rcNe E 0 close) (rcNe E 0 45))) then
+      throw (if o.e then .invalidECMAGroupName else .invalidGroupName)
+    else pure (cn, false)
+  else if ch = 45 then pure (none, true)
+  else throw (if o.e then .invalidECMAGroupName else .invalidGroupName)
+
+/-- `(?<a-…`: the balancing part after `-` (the `-` consumed) -/
+def gnUncap (close : Nat) : M (Option Nat) := do
+  let cr ← charsRight E
+  if cr = 0 then throw .invalidGroupName else
+  let ch ← rightChar E 0
+  if isDigitCh ch then do
+    let un ← scanDecimal E
+    if !(← isCaptureSlot un) then throw .undefinedBackRef else
+    let cr ← charsRight E
+    if (← andM (cr > 0) (rcNe E 0 close)) then throw .invalidGroupName else pure (some un)
+  else if E.orc.isWord ch then do
+    let uncapname ← scanCapname E
+    match (← captureSlotFromName uncapname) with
+    | none => throw .undefinedNameRef
+    | some un =>
       let cr ← charsRight E
-      if (← andM (cr > 0) (andMM (rcNe E 0 close) (rcNe E 0 45))) then throw .invalidGroupName
-      else pure (cn, false)
-    else if isGroupNameStartChar E o ch then do
-      let capname ← scanCapname E
-      let cn ← captureSlotFromName capname
-      let cr ← charsRight E
-      if (← andM (cr > 0) (andMM (rcNe E 0 close) (rcNe E 0 45))) then
-        throw (if o.e then .invalidECMAGroupName else .invalidGroupName)
-      else pure (cn, false)
-    else if ch = 45 then pure (none, true)
-    else throw (if o.e then .invalidECMAGroupName else .invalidGroupName) : M (Option Nat × Bool))
-  let (capnum, proceed) := r1
-  -- part after `-`
+      if (← andM (cr > 0) (rcNe E 0 close)) then throw .invalidGroupName else pure (some un)
+  else throw .invalidGroupName
+
+/-- `(?<…`: the part from `-` on -/
+def gnSecond (o : Opts) (close : Nat) (capnum : Option Nat) (proceed : Bool) : M (Option Nat) := do
   let cr ← charsRight E
   let hasDash ← andM (!o.e ∧ (capnum.isSome ∨ proceed) ∧ cr > 0) (rcIs E 0 45)
-  let uncapnum ← (if hasDash then do
-      moveRight 1
-      let cr ← charsRight E
-      if cr = 0 then throw .invalidGroupName else
-      let ch ← rightChar E 0
-      if isDigitCh ch then do
-        let un ← scanDecimal E
-        if !(← isCaptureSlot un) then throw .undefinedBackRef else
-        let cr ← charsRight E
-        if (← andM (cr > 0) (rcNe E 0 close)) then throw .invalidGroupName else pure (some un)
-      else if E.orc.isWord ch then do
-        let uncapname ← scanCapname E
-        match (← captureSlotFromName uncapname) with
-        | none => throw .undefinedNameRef
-        | some un =>
-          let cr ← charsRight E
-          if (← andM (cr > 0) (rcNe E 0 close)) then throw .invalidGroupName else pure (some un)
-      else throw .invalidGroupName
-    else pure none : M (Option Nat))
+  if hasDash then do
+    moveRight 1
+    gnUncap E close
+  else pure none
+
+/-- `(?<…`: the closing delimiter and the Capture node -/
+def gnClose (start close : Nat) (capnum uncapnum : Option Nat) : M (Option RNode) := do
   let cr ← charsRight E
   if (capnum.isSome ∨ uncapnum.isSome) ∧ cr > 0 then do
     let c ← moveRightGetChar E
@@ -1092,121 +1167,223 @@ def scanGroupName (start close : Nat) : M (Option RNode) := do
     else breakRecognize E start
   else breakRecognize E start
 
+/-- the name / number part of `(?<…>`, `(?'…'` (after `<` or `'`, first character not `=`/`!`) -/
+def scanGroupName (start close : Nat) : M (Option RNode) := do
+  let o ← opts
+  let r1 ← gnFirst E o close
+  let uncapnum ← gnSecond E o close r1.1 r1.2
+  gnClose E start close r1.1 uncapnum
+
+/-- `(?(12)` / `(?(name)`: a condition on a group, if it reads as one -/
+def condEarly (o : Opts) : M (Option RNode) := do
+  let cr ← charsRight E
+  if cr > 0 then do
+    let ch ← rightChar E 0
+    if isDigitCh ch then do
+      let capnum ← scanDecimal E
+      let cr ← charsRight E
+      if (← andM (cr > 0) (getIs E 41)) then
+        if (← isCaptureSlot capnum) then pure (some (mkNodeM .backRefCond o capnum))
+        else throw .undefinedReference
+      else throw .malformedReference
+    else if E.orc.isWord ch then do
+      let capname ← scanCapname E
+      match (← captureSlotFromName capname) with
+      | some slot =>
+        let cr ← charsRight E
+        if (← andM (cr > 0) (getIs E 41)) then pure (some (mkNodeM .backRefCond o slot)) else pure none
+      | none => pure none
+    else pure none
+  else pure none
+
+/-- `(?(` followed by an expression: back to the inner `(`, which opens a non-capturing group -/
+def condExpr (o : Opts) (parenPos : Nat) : M (Option RNode) := do
+  if parenPos = 0 then fault .negPos else
+  textto (parenPos - 1)
+  modify fun s => { s with ignoreNextParen := true }
+  let cr ← charsRight E
+  if (← andM (cr ≥ 3) (rcIs E 1 63)) then do
+    let rc2 ← rightChar E 2
+    if rc2 = 35 then throw .alternationCantHaveComment
+    else if rc2 = 39 then throw .alternationCantCapture
+    else if (← andM (cr ≥ 4 ∧ rc2 = 60) (andMM (rcNe E 3 33) (rcNe E 3 61))) then throw .alternationCantCapture
+    else pure (some (mkNode .exprCond o))
+  else pure (some (mkNode .exprCond o))
+
 /-- the `(?(` case of `scanGroupOpen` -/
 def scanCondition : M (Option RNode) := do
   let o ← opts
   let parenPos ← textpos
-  let cr ← charsRight E
-  let early ← (if cr > 0 then do
-      let ch ← rightChar E 0
-      if isDigitCh ch then do
-        let capnum ← scanDecimal E
-        let cr ← charsRight E
-        if (← andM (cr > 0) (getIs E 41)) then
-          if (← isCaptureSlot capnum) then pure (some (mkNodeM .backRefCond o capnum))
-          else throw .undefinedReference
-        else throw .malformedReference
-      else if E.orc.isWord ch then do
-        let capname ← scanCapname E
-        match (← captureSlotFromName capname) with
-        | some slot =>
-          let cr ← charsRight E
-          if (← andM (cr > 0) (getIs E 41)) then pure (some (mkNodeM .backRefCond o slot)) else pure none
-        | none => pure none
-      else pure none
-    else pure none : M (Option RNode))
-  match early with
+  match (← condEarly E o) with
   | some nd => pure (some nd)
-  | none => do
-    -- not a backref
-    if parenPos = 0 then fault .negPos else
-    textto (parenPos - 1)
-    modify fun s => { s with ignoreNextParen := true }
+  | none => condExpr E o parenPos
+
+/-- `(` not followed by `?` (or `(?)`): a capture group, or a plain group under ExplicitCapture /
+    after a condition -/
+def groupOpenPlain (o : Opts) : M (Option RNode) := do
+  let s ← get
+  if o.n ∨ s.ignoreNextParen then do
+    modify fun s => { s with ignoreNextParen := false }
+    pure (some (mkNode .group o))
+  else do
+    let a ← consumeAutocap
+    pure (some (mkNodeMN .capture o a (-1)))
+
+/-- the default case of the switch of `scanGroupOpen`: inline options `(?imnsx-imnsx)` / `(?imnsx-imnsx:` -/
+def groupOpenDefault (start : Nat) : M (Option RNode) := do
+  moveLeft
+  let s ← get
+  if s.group.t ≠ .exprCond then scanOptions E
+  let cr ← charsRight E
+  if cr = 0 then breakRecognize E start else
+  let c ← moveRightGetChar E
+  if c = 41 then pure none
+  else if c ≠ 58 then breakRecognize E start
+  else do let o ← opts; pure (some (mkNode .group o))
+
+/-- `(?<` and `(?'`: lookbehind or a named / numbered group -/
+def groupOpenAngle (start : Nat) (o : Opts) (close : Nat) : M (Option RNode) := do
+  let cr ← charsRight E
+  if cr = 0 then breakRecognize E start else
+  let c ← moveRightGetChar E
+  if c = 61 then
+    if close = 39 then breakRecognize E start
+    else do let o := { o with r := true }; setOpts o; pure (some (mkNode .posLook o))
+  else if c = 33 then
+    if close = 39 then breakRecognize E start
+    else do let o := { o with r := true }; setOpts o; pure (some (mkNode .negLook o))
+  else do
+    moveLeft
+    scanGroupName E start close
+
+/-- `(?P<name>` under RE2 (the `P` consumed) -/
+def groupOpenPython (start : Nat) (o : Opts) : M (Option RNode) := do
+  let cr ← charsRight E
+  if cr < 3 then breakRecognize E start else
+  let c ← moveRightGetChar E
+  if c ≠ 60 then breakRecognize E start else
+  let c ← moveRightGetChar E
+  moveLeft
+  if E.orc.isWord c then do
+    let capname ← scanCapname E
+    let capnum ← captureSlotFromName capname
     let cr ← charsRight E
-    if (← andM (cr ≥ 3) (rcIs E 1 63)) then do
-      let rc2 ← rightChar E 2
-      if rc2 = 35 then throw .alternationCantHaveComment
-      else if rc2 = 39 then throw .alternationCantCapture
-      else if (← andM (cr ≥ 4 ∧ rc2 = 60) (andMM (rcNe E 3 33) (rcNe E 3 61))) then throw .alternationCantCapture
-      else pure (some (mkNode .exprCond o))
-    else pure (some (mkNode .exprCond o))
+    if (← andM (cr > 0) (rcNe E 0 62)) then throw .invalidGroupName
+    else if capnum.isSome ∧ cr > 0 then do
+      let c ← moveRightGetChar E
+      if c = 62 then do
+        consumeCaptureSlot E capnum
+        pure (some (mkNodeMN .capture o (optInt capnum) (-1)))
+      else breakRecognize E start
+    else breakRecognize E start
+  else throw .invalidGroupName
+
+/-- the switch of `scanGroupOpen` on the rune after `(?` -/
+def groupOpenSwitch (start : Nat) (o : Opts) (ch : Nat) : M (Option RNode) :=
+  if ch = 58 then pure (some (mkNode .group o))
+  else if ch = 61 then do let o := { o with r := false }; setOpts o; pure (some (mkNode .posLook o))
+  else if ch = 33 then do let o := { o with r := false }; setOpts o; pure (some (mkNode .negLook o))
+  else if ch = 62 then pure (some (mkNode .atomic o))
+  else if ch = 39 then groupOpenAngle E start o 39
+  else if ch = 60 then groupOpenAngle E start o 62
+  else if ch = 40 then scanCondition E
+  else if ch = 80 ∧ o.re2 then groupOpenPython E start o
+  else groupOpenDefault E start
+
+/-- is the `(` followed by something other than a `(?…` construct? -/
+def groupOpenIsPlain : M Bool := do
+  let cr ← charsRight E
+  let c0 ← (if cr > 0 then rightChar E 0 else pure 0 : M Nat)
+  let c1 ← (if cr > 1 then rightChar E 1 else pure 0 : M Nat)
+  pure (decide (cr = 0 ∨ c0 ≠ 63 ∨ (c0 = 63 ∧ cr > 1 ∧ c1 = 41)))
 
 /-- `scanGroupOpen` (the `(` has been consumed); `none` = options only / nothing to open -/
 def scanGroupOpen : M (Option RNode) := do
   let start ← textpos
-  let cr ← charsRight E
   let o ← opts
-  let c0 ← (if cr > 0 then rightChar E 0 else pure 0 : M Nat)
-  let c1 ← (if cr > 1 then rightChar E 1 else pure 0 : M Nat)
-  if cr = 0 ∨ c0 ≠ 63 ∨ (c0 = 63 ∧ cr > 1 ∧ c1 = 41) then do
-    let s ← get
-    if o.n ∨ s.ignoreNextParen then do
-      modify fun s => { s with ignoreNextParen := false }
-      pure (some (mkNode .group o))
-    else do
-      let a ← consumeAutocap
-      pure (some (mkNodeMN .capture o a (-1)))
+  if (← groupOpenIsPlain E) then groupOpenPlain o
   else do
     modify fun s => { s with ignoreNextParen := false }
     moveRight 1
     let cr ← charsRight E
     if cr = 0 then breakRecognize E start else
     let ch ← moveRightGetChar E
-    -- the default case of the switch
-    let dflt : M (Option RNode) := do
-      moveLeft
-      let s ← get
-      if s.group.t ≠ .exprCond then scanOptions E
-      let cr ← charsRight E
-      if cr = 0 then breakRecognize E start else
-      let c ← moveRightGetChar E
-      if c = 41 then pure none
-      else if c ≠ 58 then breakRecognize E start
-      else do let o ← opts; pure (some (mkNode .group o))
-    -- `<` and `'`
-    let angle (close : Nat) : M (Option RNode) := do
-      let cr ← charsRight E
-      if cr = 0 then breakRecognize E start else
-      let c ← moveRightGetChar E
-      if c = 61 then
-        if close = 39 then breakRecognize E start
-        else do let o := { o with r := true }; setOpts o; pure (some (mkNode .posLook o))
-      else if c = 33 then
-        if close = 39 then breakRecognize E start
-        else do let o := { o with r := true }; setOpts o; pure (some (mkNode .negLook o))
-      else do
-        moveLeft
-        scanGroupName E start close
-    if ch = 58 then pure (some (mkNode .group o))
-    else if ch = 61 then do let o := { o with r := false }; setOpts o; pure (some (mkNode .posLook o))
-    else if ch = 33 then do let o := { o with r := false }; setOpts o; pure (some (mkNode .negLook o))
-    else if ch = 62 then pure (some (mkNode .atomic o))
-    else if ch = 39 then angle 39
-    else if ch = 60 then angle 62
-    else if ch = 40 then scanCondition E
-    else if ch = 80 ∧ o.re2 then do
-      let cr ← charsRight E
-      if cr < 3 then breakRecognize E start else
-      let c ← moveRightGetChar E
-      if c ≠ 60 then breakRecognize E start else
-      let c ← moveRightGetChar E
-      moveLeft
-      if E.orc.isWord c then do
-        let capname ← scanCapname E
-        let capnum ← captureSlotFromName capname
-        let cr ← charsRight E
-        if (← andM (cr > 0) (rcNe E 0 62)) then throw .invalidGroupName
-        else if capnum.isSome ∧ cr > 0 then do
-          let c ← moveRightGetChar E
-          if c = 62 then do
-            consumeCaptureSlot E capnum
-            pure (some (mkNodeMN .capture o (optInt capnum) (-1)))
-          else breakRecognize E start
-        else breakRecognize E start
-      else throw .invalidGroupName
-    else dflt
+    groupOpenSwitch E start o ch
 
 /-! ## The capture pre-scan -/
+
+/-- pre-scan, `(?<` / `(?'` (the `?` consumed, `<` or `'` next, one more rune after it): note the
+    name or number -/
+def countNamed (o : Opts) : M Unit := do
+  moveRight 1
+  let ch ← rightChar E 0
+  if (ch ≠ 48 ∨ !o.e) ∧ isGroupNameStartChar E o ch then
+    if isDigitCh ch ∧ !o.e then do
+      let dec ← scanDecimal E
+      if E.ord then noteCaptureName E (itoaRunes dec) else noteCaptureSlot dec
+    else do
+      let capname ← scanCapname E
+      noteCaptureName E capname
+  modify fun s => { s with ignoreNextParen := false }
+
+/-- pre-scan, `(?P<` under RE2 (the `?` consumed, `P<` next, one more rune after it) -/
+def countPython : M Unit := do
+  moveRight 2
+  let ch ← rightChar E 0
+  if E.orc.isWord ch then do
+    let capname ← scanCapname E
+    noteCaptureName E capname
+  modify fun s => { s with ignoreNextParen := false }
+
+/-- pre-scan, `(?` followed by anything else: inline options; `(?i)` keeps them, `(?i)(` … -/
+def countOptions : M Unit := do
+  scanOptions E
+  let cr ← charsRight E
+  if (← andM (cr > 0) (rcIs E 0 41)) then do
+    moveRight 1
+    popKeepOptions
+    modify fun s => { s with ignoreNextParen := false }
+  else if (← andM (cr > 0) (rcIs E 0 40)) then
+    -- `continue`: ignoreNextParen stays set
+    modify fun s => { s with ignoreNextParen := true }
+  else modify fun s => { s with ignoreNextParen := false }
+
+/-- pre-scan, `(?` (the `?` not yet consumed; the options have been pushed) -/
+def countQuestion (o : Opts) : M Unit := do
+  moveRight 1
+  let cr ← charsRight E
+  let c0 ← (if cr > 0 then rightChar E 0 else pure 0 : M Nat)
+  if cr > 1 ∧ (c0 = 60 ∨ c0 = 39) then countNamed E o
+  else if (← andM (o.re2 ∧ cr > 2 ∧ c0 = 80) (rcIs E 1 60)) then countPython E
+  else countOptions E
+
+/-- pre-scan, `(` not followed by `?`: an automatically numbered group unless ExplicitCapture /
+    after `(?i)(` -/
+def countPlain : M Unit := do
+  let s ← get
+  let o ← opts
+  if !o.n ∧ !s.ignoreNextParen then do
+    let a ← consumeAutocap
+    noteCaptureSlot a
+  modify fun s => { s with ignoreNextParen := false }
+
+/-- pre-scan, `(?#` or `#` under IgnorePatternWhitespace (its first rune consumed): back to it and
+    skip the comment (an unterminated comment is reported by the main scan) -/
+def countComment : M Unit := do
+  moveLeft
+  ignoreErr (scanBlank E)
+
+/-- pre-scan, `(` (consumed) -/
+def countParen (o : Opts) : M Unit := do
+  let cr ← charsRight E
+  if (← andM (cr ≥ 2) (andMM (rcIs E 1 35) (rcIs E 0 63))) then do
+    countComment E
+    modify fun s => { s with ignoreNextParen := false }
+  else do
+    pushOptions
+    let cr ← charsRight E
+    if (← andM (cr > 0) (rcIs E 0 63)) then countQuestion E o
+    else countPlain
 
 /-- one turn of the loop of `countCaptures` -/
 def countStep : M Unit := do
@@ -1216,59 +1393,11 @@ def countStep : M Unit := do
     let cr ← charsRight E
     if cr > 0 then ignoreErr (scanBackslash E true)
   else if ch = 35 then
-    if o.x then do moveLeft; ignoreErr (scanBlank E) else pure ()
+    if o.x then countComment E else pure ()
   else if ch = 91 then ignoreErr (scanCharSet E (2 * E.pat.length + 4) false true)
   else if ch = 41 then do
     if !(← emptyOptionsStack) then popOptions
-  else if ch = 40 then do
-    let cr ← charsRight E
-    if (← andM (cr ≥ 2) (andMM (rcIs E 1 35) (rcIs E 0 63))) then do
-      moveLeft
-      ignoreErr (scanBlank E)
-      modify fun s => { s with ignoreNextParen := false }
-    else do
-      pushOptions
-      let cr ← charsRight E
-      if (← andM (cr > 0) (rcIs E 0 63)) then do
-        moveRight 1
-        let cr ← charsRight E
-        let c0 ← (if cr > 0 then rightChar E 0 else pure 0 : M Nat)
-        if cr > 1 ∧ (c0 = 60 ∨ c0 = 39) then do
-          moveRight 1
-          let ch ← rightChar E 0
-          if (ch ≠ 48 ∨ !o.e) ∧ isGroupNameStartChar E o ch then
-            if isDigitCh ch ∧ !o.e then do
-              let dec ← scanDecimal E
-              if E.ord then noteCaptureName E (itoaRunes dec) else noteCaptureSlot dec
-            else do
-              let capname ← scanCapname E
-              noteCaptureName E capname
-          modify fun s => { s with ignoreNextParen := false }
-        else if (← andM (o.re2 ∧ cr > 2 ∧ c0 = 80) (rcIs E 1 60)) then do
-          moveRight 2
-          let ch ← rightChar E 0
-          if E.orc.isWord ch then do
-            let capname ← scanCapname E
-            noteCaptureName E capname
-          modify fun s => { s with ignoreNextParen := false }
-        else do
-          scanOptions E
-          let cr ← charsRight E
-          if (← andM (cr > 0) (rcIs E 0 41)) then do
-            moveRight 1
-            popKeepOptions
-            modify fun s => { s with ignoreNextParen := false }
-          else if (← andM (cr > 0) (rcIs E 0 40)) then
-            -- `continue`: ignoreNextParen stays set
-            modify fun s => { s with ignoreNextParen := true }
-          else modify fun s => { s with ignoreNextParen := false }
-      else do
-        let s ← get
-        let o ← opts
-        if !o.n ∧ !s.ignoreNextParen then do
-          let a ← consumeAutocap
-          noteCaptureSlot a
-        modify fun s => { s with ignoreNextParen := false }
+  else if ch = 40 then countParen E o
   else pure ()
 
 /-- `assignNameSlots` -/
@@ -1289,43 +1418,61 @@ def countCaptures (fuel : Nat) : M Groups.Tables := do
 
 /-! ## The main loop -/
 
+/-- `{n,` … : the upper bound (`startpos` = after the `{`, `min` = n) -/
+def quantMax (startpos min : Nat) : M Nat := do
+  let pos1 ← textpos
+  if startpos < pos1 then do
+    if (← nextIs E 44) then do
+      moveRight 1
+      let cr ← charsRight E
+      if (← orM (cr = 0) (rcIs E 0 125)) then pure maxInt32 else scanDecimal E
+    else pure min
+  else pure min
+
+/-- `{n,m` … : the closing brace -/
+def quantClosed (startpos : Nat) : M Bool := do
+  let pos2 ← textpos
+  let cr ← charsRight E
+  if startpos = pos2 ∨ cr = 0 then pure false else do
+    let c ← moveRightGetChar E
+    pure (c == 125)
+
+/-- `{n}` `{n,}` `{n,m}` (the `{` consumed); `none` = not a quantifier after all: the unit is added and
+    the scan resumes at the `{` -/
+def quantBrace : M (Option (Nat × Nat)) := do
+  let startpos ← textpos
+  let min ← scanDecimal E
+  let max ← quantMax E startpos min
+  let closed ← quantClosed E startpos
+  if !closed then do
+    addConcatenate
+    if startpos = 0 then fault .negPos else
+    textto (startpos - 1)
+    pure none
+  else pure (some (min, max))
+
+/-- the bounds of the quantifier `ch` -/
+def quantBounds (ch : Nat) : M (Option (Nat × Nat)) :=
+  if ch = 42 then pure (some (0, maxInt32))
+  else if ch = 63 then pure (some (0, 1))
+  else if ch = 43 then pure (some (1, maxInt32))
+  else if ch = 123 then quantBrace E
+  else throw .internalError
+
+/-- what follows the bounds: blanks, the lazy `?`, the quantified unit joins the concatenation -/
+def quantApply (min max : Nat) : M Unit := do
+  scanBlank E
+  let lazy ← (if (← nextIs E 63) then do moveRight 1; pure true else pure false : M Bool)
+  if min > max then throw .invalidRepeatSize else
+  addConcatenate3 lazy min max
+
 /-- the quantifier part of one turn of `scanRegex` (`ch` = the quantifier character, consumed) -/
 def scanQuantifier (ch : Nat) : M Unit := do
   let s ← get
   if s.unit.isNone then pure () else
-  let mm ← (if ch = 42 then pure (some (0, maxInt32))
-    else if ch = 63 then pure (some (0, 1))
-    else if ch = 43 then pure (some (1, maxInt32))
-    else if ch = 123 then do
-      let startpos ← textpos
-      let min ← scanDecimal E
-      let pos1 ← textpos
-      let max ← (if startpos < pos1 then do
-          if (← nextIs E 44) then do
-            moveRight 1
-            let cr ← charsRight E
-            if (← orM (cr = 0) (rcIs E 0 125)) then pure maxInt32 else scanDecimal E
-          else pure min
-        else pure min : M Nat)
-      let pos2 ← textpos
-      let cr ← charsRight E
-      let closed ← (if startpos = pos2 ∨ cr = 0 then pure false else do
-          let c ← moveRightGetChar E
-          pure (c == 125) : M Bool)
-      if !closed then do
-        addConcatenate
-        if startpos = 0 then fault .negPos else
-        textto (startpos - 1)
-        pure none
-      else pure (some (min, max))
-    else throw .internalError : M (Option (Nat × Nat)))
-  match mm with
+  match (← quantBounds E ch) with
   | none => pure ()
-  | some (min, max) => do
-    scanBlank E
-    let lazy ← (if (← nextIs E 63) then do moveRight 1; pure true else pure false : M Bool)
-    if min > max then throw .invalidRepeatSize else
-    addConcatenate3 lazy min max
+  | some mm => quantApply E mm.1 mm.2
 
 /-- the run of ordinary characters at the head of a turn -/
 def skipOrdinary : Nat → M Unit :=
@@ -1338,91 +1485,123 @@ def skipOrdinary : Nat → M Unit :=
     if stop ∧ (ch ≠ 123 ∨ (← isTrueQuantifier E)) then pure (.inr ())
     else do moveRight 1; pure (.inl ())) fuel ()
 
-/-- one turn of the loop of `scanRegex`; the loop-carried variable is `isQuant`;
-    `inl` = next turn, `inr` = `BreakOuterScan` -/
-def scanStep (isQuant0 : Bool) : M (Sum Bool Unit) := do
-  let wasPrev0 := isQuant0
+/-- the rune that ends the run of ordinary characters: `(33, false)` = end of the pattern,
+    `(32, false)` = not a special rune, else the rune (consumed) and whether it is a quantifier -/
+def stepHead : M (Nat × Bool) := do
+  let cr ← charsRight E
+  if cr = 0 then pure (33, false) else do
+    let c ← rightChar E 0
+    if isSpecialCh c then do moveRight 1; pure (c, isQuantCh c) else pure (32, false)
+
+/-- the run of ordinary characters `[startpos, endpos)` joins the concatenation; before a
+    quantifier its last rune becomes the unit.  Returns `wasPrevQuantifier`. -/
+def stepLiteral (startpos endpos : Nat) (isQuant wasPrev0 : Bool) : M Bool := do
+  if startpos < endpos then do
+    let cch := endpos - startpos - (if isQuant then 1 else 0)
+    if cch > 0 then addToConcatenate E startpos cch
+    if isQuant then do
+      let c ← charAt E (endpos - 1)
+      let o ← opts
+      setUnit (some (nodeCh E .one o c))
+    pure false
+  else pure wasPrev0
+
+/-- after the switch of `scanRegex`: the unit with its quantifier, if one follows -/
+def stepAfter (isQuant : Bool) : M (Sum Bool Unit) := do
+  scanBlank E
+  let cr ← charsRight E
+  let isQuant ← (if cr > 0 then isTrueQuantifier E else pure isQuant : M Bool)
+  if cr = 0 ∨ !isQuant then do
+    addConcatenate
+    pure (.inl isQuant)
+  else do
+    let q ← moveRightGetChar E
+    scanQuantifier E q
+    pure (.inl isQuant)
+
+/-- is the `(` (consumed) the start of `(?P=name)` under RE2? -/
+def stepIsPythonRef (o : Opts) : M Bool := do
+  let cr ← charsRight E
+  andM (o.re2 ∧ cr ≥ 3) (andMM (rcIs E 0 63) (andMM (rcIs E 1 80) (rcIs E 2 61)))
+
+/-- `(` in `scanRegex`, other than `(?P=` -/
+def stepOpen (isQuant : Bool) : M (Sum Bool Unit) := do
+  pushOptions
+  match (← scanGroupOpen E) with
+  | none => popKeepOptions
+  | some grouper => do pushGroup; startGroup grouper
+  pure (.inl isQuant)
+
+/-- `)` in `scanRegex` -/
+def stepClose (isQuant : Bool) : M (Sum Bool Unit) := do
+  let s ← get
+  if s.stack.isEmpty then throw .unexpectedParen else
+  addGroup
+  popGroup
+  popOptions
+  let s ← get
+  if s.unit.isNone then pure (.inl isQuant) else stepAfter E isQuant
+
+/-- `.` -/
+def dotNode (o : Opts) : RNode :=
+  if o.s then nodeSet E o (.leaf anyClass)
+  else if o.e then nodeSet E o (.leaf ecmaAnyClass)
+  else nodeCh E .notone o 10
+
+/-- the switch of `scanRegex` on the special rune `ch` (consumed) -/
+def stepSwitch (o : Opts) (ch : Nat) (isQuant wasPrev : Bool) : M (Sum Bool Unit) := do
+  if ch = 91 then do
+    let cc ← scanCharSet E (2 * E.pat.length + 4) o.i false
+    setUnit (some (nodeSet E o cc))
+    stepAfter E isQuant
+  else if ch = 40 then do
+    if (← stepIsPythonRef E o) then do
+      let nd ← scanPythonNamedBackref E
+      setUnit (some nd)
+      stepAfter E isQuant
+    else stepOpen E isQuant
+  else if ch = 124 then do addAlternate; pure (.inl isQuant)
+  else if ch = 41 then stepClose E isQuant
+  else if ch = 92 then do
+    let nd ← scanBackslash E false
+    setUnit (some nd)
+    stepAfter E isQuant
+  else if ch = 94 then do
+    setUnit (some (mkNode (if o.m then .bol else .beginning) o))
+    stepAfter E isQuant
+  else if ch = 36 then do
+    setUnit (some (mkNode (if o.m then .eol else if o.re2 ∨ o.e then .end_ else .endZ) o))
+    stepAfter E isQuant
+  else if ch = 46 then do
+    setUnit (some (dotNode E o))
+    stepAfter E isQuant
+  else if ch = 123 ∨ ch = 42 ∨ ch = 43 ∨ ch = 63 then do
+    let s ← get
+    if s.unit.isNone then throw (if wasPrev then .invalidRepeatOp else .missingRepeatArgument) else
+    moveLeft
+    stepAfter E isQuant
+  else throw .internalError
+
+/-- the head of one turn: blanks, the run of ordinary characters, blanks — `(startpos, endpos)` -/
+def stepRun : M (Nat × Nat) := do
   scanBlank E
   let startpos ← textpos
   let cr ← charsRight E
   skipOrdinary E (cr + 1)
   let endpos ← textpos
   scanBlank E
-  let cr ← charsRight E
-  let hd ← (if cr = 0 then pure (33, false) else do
-      let c ← rightChar E 0
-      if isSpecialCh c then do moveRight 1; pure (c, isQuantCh c) else pure (32, false) : M (Nat × Bool))
-  let (ch, isQuant) := hd
-  let wasPrev ← (if startpos < endpos then do
-      let cch := endpos - startpos - (if isQuant then 1 else 0)
-      if cch > 0 then addToConcatenate E startpos cch
-      if isQuant then do
-        let c ← charAt E (endpos - 1)
-        let o ← opts
-        setUnit (some (nodeCh E .one o c))
-      pure false
-    else pure wasPrev0 : M Bool)
-  -- after the switch: quantifier or not
-  let after (isQuant : Bool) : M (Sum Bool Unit) := do
-    scanBlank E
-    let cr ← charsRight E
-    let isQuant ← (if cr > 0 then isTrueQuantifier E else pure isQuant : M Bool)
-    if cr = 0 ∨ !isQuant then do
-      addConcatenate
-      pure (.inl isQuant)
-    else do
-      let q ← moveRightGetChar E
-      scanQuantifier E q
-      pure (.inl isQuant)
+  pure (startpos, endpos)
+
+/-- one turn of the loop of `scanRegex`; the loop-carried variable is `isQuant`;
+    `inl` = next turn, `inr` = `BreakOuterScan` -/
+def scanStep (isQuant0 : Bool) : M (Sum Bool Unit) := do
+  let run ← stepRun E
+  let hd ← stepHead E
+  let wasPrev ← stepLiteral E run.1 run.2 hd.2 isQuant0
   let o ← opts
-  if ch = 33 then pure (.inr ())
-  else if ch = 32 then pure (.inl isQuant)
-  else if ch = 91 then do
-    let cc ← scanCharSet E (2 * E.pat.length + 4) o.i false
-    setUnit (some (nodeSet E o cc))
-    after isQuant
-  else if ch = 40 then do
-    let cr ← charsRight E
-    if (← andM (o.re2 ∧ cr ≥ 3) (andMM (rcIs E 0 63) (andMM (rcIs E 1 80) (rcIs E 2 61)))) then do
-      let nd ← scanPythonNamedBackref E
-      setUnit (some nd)
-      after isQuant
-    else do
-      pushOptions
-      match (← scanGroupOpen E) with
-      | none => popKeepOptions
-      | some grouper => do pushGroup; startGroup grouper
-      pure (.inl isQuant)
-  else if ch = 124 then do addAlternate; pure (.inl isQuant)
-  else if ch = 41 then do
-    let s ← get
-    if s.stack.isEmpty then throw .unexpectedParen else
-    addGroup
-    popGroup
-    popOptions
-    let s ← get
-    if s.unit.isNone then pure (.inl isQuant) else after isQuant
-  else if ch = 92 then do
-    let nd ← scanBackslash E false
-    setUnit (some nd)
-    after isQuant
-  else if ch = 94 then do
-    setUnit (some (mkNode (if o.m then .bol else .beginning) o))
-    after isQuant
-  else if ch = 36 then do
-    setUnit (some (mkNode (if o.m then .eol else if o.re2 ∨ o.e then .end_ else .endZ) o))
-    after isQuant
-  else if ch = 46 then do
-    setUnit (some (if o.s then nodeSet E o (.leaf anyClass)
-      else if o.e then nodeSet E o (.leaf ecmaAnyClass)
-      else nodeCh E .notone o 10))
-    after isQuant
-  else if ch = 123 ∨ ch = 42 ∨ ch = 43 ∨ ch = 63 then do
-    let s ← get
-    if s.unit.isNone then throw (if wasPrev then .invalidRepeatOp else .missingRepeatArgument) else
-    moveLeft
-    after isQuant
-  else throw .internalError
+  if hd.1 = 33 then pure (.inr ())
+  else if hd.1 = 32 then pure (.inl hd.2)
+  else stepSwitch E o hd.1 hd.2 wasPrev
 
 /-- `scanRegex` -/
 def scanRegex (fuel : Nat) : M RNode := do
